@@ -139,7 +139,11 @@ def set_winsize(fd, rows, cols):
 
 KEYS = {"F1": b"\x1bOP", "F2": b"\x1bOQ", "F3": b"\x1bOR", "F4": b"\x1bOS", "F5": b"\x1b[15~", "Tab": b"\t", "Enter": b"\r",
         "Up": b"\x1b[A", "Down": b"\x1b[B", "Right": b"\x1b[C", "Left": b"\x1b[D", "q": b"q", "CtrlC": b"\x03", "+": b"+", "-": b"-",
-        "l": b"l", "i": b"i", "h": b"h", "t": b"t", "n": b"n", "x": b"x", "Esc": b"\x1b", "Space": b" ", "PageDown": b"\x1b[6~"}
+        "l": b"l", "i": b"i", "h": b"h", "t": b"t", "n": b"n", "x": b"x", "Esc": b"\x1b", "Space": b" ", "PageDown": b"\x1b[6~",
+        # keys without a meaning in the program: whatever they are, they change nothing and end nothing
+        "F6": b"\x1b[17~", "F7": b"\x1b[18~", "F8": b"\x1b[19~", "F9": b"\x1b[20~", "F10": b"\x1b[21~", "F11": b"\x1b[23~", "F12": b"\x1b[24~",
+        "Home": b"\x1b[H", "End": b"\x1b[F", "Insert": b"\x1b[2~", "Delete": b"\x1b[3~", "PageUp": b"\x1b[5~", "BackTab": b"\x1b[Z",
+        "Backspace": b"\x7f", "Q": b"Q", "L": b"L", "ShiftF1": b"\x1b[1;2P", "CtrlF3": b"\x1b[1;5R", "AltX": b"\x1bx", "0": b"0"}
 
 
 def mouse(kind, col, row):
